@@ -24,6 +24,19 @@ prelude.declare_fun('ev_exc', [t.INT, 'Heap', 'Dom', t.INT], t.INT)
 prelude.define('bit_of', '(define-fun bit_of ((n Int) (k Int)) Int (mod (div n (pow2 k)) 2))', deps=['pow2'])
 
 
+prelude.declare_fun('fn_sub', [t.INT], t.INT)
+prelude.declare_fun('map_has', [t.INT, t.VAL], t.BOOL)
+prelude.declare_fun('map_get', [t.INT, t.VAL], t.VAL)
+
+
+class VMap(Value):
+    """a dict attribute of a construct (encmapping, cases, flags): uninterpreted finite map over Val keys"""
+    kind = 'map'
+
+    def __init__(self, ident, values='dyn'):
+        self.ident, self.values = ident, values
+
+
 def param_kind_value(kind, term_int=None, term_val=None):
     if kind == 'int':
         return VInt(term_int)
@@ -37,6 +50,121 @@ class Interface:
         self.tables = {}
         self.singletons = {}
         self.extra_globals = {}
+
+    def configure(self, **kw):
+        for k, v in kw.items():
+            setattr(self, k, v)
+
+    def havoc_heap(self, eng, st):
+        self.H(st)
+        st.ghost['H'] = fresh('H', 'Heap')
+        st.ghost['D'] = fresh('D', 'Dom')
+        a2 = fresh('alloc', t.INT)
+        st.assume(t.ge(a2, st.ghost['alloc']))
+        st.ghost['alloc'] = a2
+
+    # ================================================================= user-supplied functions and mappings
+    def user_function(self, eng, ident, returns, args, kws, st):
+        """a callable stored on the construct (decode/encode function, hash function): a total, pure function of its
+        first argument (assumption E5/E6: user callbacks do not raise and have no effects)"""
+        a0 = args[0] if args else NONE
+        if returns == 'bytes':
+            b = self.models.as_bytes(eng, a0, st)
+            if b is None:
+                raise OutOfReach('bytes function on %r' % (a0,))
+            ln = t.app('fn_bytes_len', t.INT, ident, b.arr, b.off, b.len)
+            arr = t.app('fn_bytes_arr', t.ARR, ident, b.arr, b.off, b.len)
+            st.assume(t.ge(ln, t.ZERO))
+            eng.assume_byte_range(st, arr, t.ZERO, ln)
+            return [(st, VBytes(arr, t.ZERO, ln))]
+        if returns == 'sub':
+            return [(st, VSub(t.app('fn_sub', t.INT, ident), 'bound'))]
+        return [(st, VDyn(t.app('fn_val', t.VAL, ident, eng.to_dyn(a0, st))))]
+
+    def new_map(self, eng, st, name, values):
+        return VMap(fresh('map_' + name, t.INT), values)
+
+    def map_value(self, eng, m, valterm, st):
+        if m.values == 'int':
+            st.assume(t.app('(_ is VInt)', t.BOOL, valterm))
+            return VInt(t.app('ival', t.INT, valterm))
+        if m.values == 'sub':
+            st.assume(t.app('(_ is VOpq)', t.BOOL, valterm))
+            return VSub(t.app('oid', t.INT, valterm), 'case')
+        return VDyn(valterm)
+
+    def hashable(self, eng, v, st):
+        if isinstance(v, VDyn):
+            prelude.declare_fun('opq_hashable', [t.VAL], t.BOOL)
+            return t.or_(t.not_(t.or_(t.app('(_ is VRef)', t.BOOL, v.t), t.app('(_ is VOpq)', t.BOOL, v.t))), t.app('opq_hashable', t.BOOL, v.t))
+        if isinstance(v, VRef):
+            return t.FALSE
+        return t.TRUE
+
+    def map_index(self, eng, m, key, st):
+        out = []
+        h, nh = eng.fork(st, self.hashable(eng, key, st))
+        if nh is not None:
+            out.extend(eng.raise_(nh, 'TypeError', origin='unhashable dict key'))
+        if h is None:
+            return out
+        kt = eng.to_dyn(key, h)
+        a, b = eng.fork(h, t.app('map_has', t.BOOL, m.ident, kt))
+        if a is not None:
+            out.append((a, self.map_value(eng, m, t.app('map_get', t.VAL, m.ident, kt), a)))
+        if b is not None:
+            out.extend(eng.raise_(b, 'KeyError', origin='key not in mapping'))
+        return out
+
+    def map_contains(self, eng, m, key, st):
+        out = []
+        h, nh = eng.fork(st, self.hashable(eng, key, st))
+        if nh is not None:
+            out.extend(eng.raise_(nh, 'TypeError', origin='unhashable dict key'))
+        if h is not None:
+            out.append((h, VBool(t.app('map_has', t.BOOL, m.ident, eng.to_dyn(key, h)))))
+        return out
+
+    def map_method(self, eng, m, name, args, kws, st):
+        if name == 'get':
+            out = []
+            h, nh = eng.fork(st, self.hashable(eng, args[0], st))
+            if nh is not None:
+                out.extend(eng.raise_(nh, 'TypeError', origin='unhashable dict key'))
+            if h is not None:
+                kt = eng.to_dyn(args[0], h)
+                d = args[1] if len(args) > 1 else NONE
+                a, b = eng.fork(h, t.app('map_has', t.BOOL, m.ident, kt))
+                if a is not None:
+                    out.append((a, self.map_value(eng, m, t.app('map_get', t.VAL, m.ident, kt), a)))
+                if b is not None:
+                    out.append((b, d))
+            return out
+        if name == 'items':
+            prelude.declare_fun('map_len', [t.INT], t.INT)
+            prelude.declare_fun('map_key', [t.INT, t.INT], t.VAL)
+            n = t.app('map_len', t.INT, m.ident)
+            st.assume(t.ge(n, t.ZERO))
+
+            def at(i):
+                k = t.app('map_key', t.VAL, m.ident, i)
+                return VTuple([VDyn(k), self.map_value_pure(m, t.app('map_get', t.VAL, m.ident, k))])
+            return [(st, VIter('seq', n=n, at=at))]
+        raise OutOfReach('dict.%s on a construct mapping' % name)
+
+    def map_value_pure(self, m, valterm):
+        if m.values == 'int':
+            return VInt(t.app('ival', t.INT, valterm))
+        return VDyn(valterm)
+
+    def fmt_field(self, eng, st, k):
+        from .structmodel import SIZES
+        fmt = eng.variant
+        if fmt is None:
+            raise OutOfReach('FormatField needs a concrete format variant')
+        if k == 'fmt':
+            return VStr(S(fmt))
+        return VInt(I(SIZES[fmt[1]]))
 
     # ================================================================= heap helpers
     def H(self, st):
@@ -275,6 +403,8 @@ class Interface:
         if isc is None:
             return out
         raises = t.app('ev_raises', t.BOOL, p.ident, H, D, c)
+        if getattr(self, 'params_total', False):
+            isc.assume(t.not_(raises))
         bad, good = eng.fork(isc, raises)
         if bad is not None:
             ec = t.app('ev_exc', t.INT, p.ident, H, D, c)
